@@ -26,7 +26,7 @@ func init() {
 	vexplore.Register("C19", func(tier string) []*vexplore.Scenario {
 		return []*vexplore.Scenario{
 			{Name: "maxrecvsize-takes-effect", Mode: "enum", Reset: kit.ResetGlobals, Body: maxRecv,
-				NeedCounters: []string{"limit-enforced", "in-limit-delivered", "limit-lifted"}},
+				NeedCounters: []string{"limit-enforced", "in-limit-delivered", "limit-lifted", "unrelated-options-in-the-map"}},
 			{Name: "best-effort-beside-a-send-deadline", Mode: "enum", Reset: kit.ResetGlobals, Body: c18.BestEffortModes,
 				NeedCounters: []string{"best-effort-returned-at-once"}},
 			{Name: "socket-options-reach-existing-dialers", Mode: "enum", Reset: kit.ResetGlobals, Body: sockOptsExisting,
@@ -54,11 +54,15 @@ func frame(scheme string, n int) []byte {
 // maxRecv: the limit is set through {socket before the endpoint exists, endpoint before start,
 // endpoint after start, socket after start}, to a value in {64, 0 (= unlimited, after a limit)};
 // the next connection must obey the value that was accepted last, and Get must report it.
+func MaxRecv() { maxRecv() }
+
 func maxRecv() {
 	scheme := []string{"tcp", "vipc"}[kit.ChooseFree(2)]
 	role := []string{"listener", "dialer"}[kit.ChooseFree(2)]
-	when := []string{"socket-before", "endpoint-before-start", "endpoint-after-start", "socket-after-start"}[kit.ChooseFree(4)]
+	when := []string{"socket-before", "endpoint-before-start", "endpoint-after-start", "socket-after-start", "endpoint-options-map"}[kit.ChooseFree(5)]
 	lift := kit.ChooseFree(2) == 1
+	// other options passed in the map the endpoint is created with (they have nothing to do with the limit)
+	extra := kit.ChooseFree(2) == 1
 	s, err := pull.NewSocket()
 	if err != nil {
 		kit.Failf("setup", "NewSocket: %v", err)
@@ -83,8 +87,16 @@ func maxRecv() {
 			kit.Failf("maxrecvsize-set:"+what, "%s: SetOption(MaxRecvSize,%d) via %s: %s", scheme, v, what, kit.ErrName(err))
 		}
 	}
-	if lift || when == "socket-before" {
+	if lift || when == "socket-before" || when == "endpoint-options-map" {
+		// (with the map: the socket has another value, the one in the map is the endpoint's)
 		set(s, first, "socket")
+	}
+	if when == "endpoint-options-map" && !lift {
+		set(s, 32, "socket")
+	}
+	emap := map[string]interface{}{}
+	if when == "endpoint-options-map" {
+		emap[mangos.OptionMaxRecvSize] = limit
 	}
 	var obj interface {
 		SetOption(string, interface{}) error
@@ -92,7 +104,11 @@ func maxRecv() {
 	}
 	start := func() {}
 	if role == "listener" {
-		l, err := s.NewListener(scheme+"://"+addr, nil)
+		if extra && scheme == "tcp" {
+			emap[mangos.OptionNoDelay] = true
+			kit.Count("unrelated-options-in-the-map")
+		}
+		l, err := s.NewListener(scheme+"://"+addr, emap)
 		if err != nil {
 			kit.Failf("setup", "NewListener: %s", kit.ErrName(err))
 		}
@@ -104,7 +120,13 @@ func maxRecv() {
 		}
 	} else {
 		ep.HarnessListen(true)
-		d, err := s.NewDialer(scheme+"://"+addr, map[string]interface{}{mangos.OptionDialAsynch: true, mangos.OptionReconnectTime: 10 * time.Millisecond})
+		emap[mangos.OptionDialAsynch] = true
+		emap[mangos.OptionReconnectTime] = 10 * time.Millisecond
+		if extra {
+			emap[mangos.OptionMaxReconnectTime] = 10 * time.Millisecond
+			kit.Count("unrelated-options-in-the-map")
+		}
+		d, err := s.NewDialer(scheme+"://"+addr, emap)
 		if err != nil {
 			kit.Failf("setup", "NewDialer: %s", kit.ErrName(err))
 		}
@@ -123,6 +145,8 @@ func maxRecv() {
 		start()
 	case "endpoint-before-start":
 		set(obj, limit, role)
+		start()
+	case "endpoint-options-map":
 		start()
 	case "endpoint-after-start":
 		start()
